@@ -26,7 +26,7 @@ def data_index_state(ctx, rule='C10-R1'):
     def inline(q, d):
         cf = p.funcs.get(q)
         return q == 'ampycloud.utils.utils.check_data_consistency' or (
-            cf is not None and cf.module.name == 'ampycloud.data' and cf.name.startswith('_')
+            cf is not None and cf.module.name in ('ampycloud.data', 'ampycloud.utils.utils') and cf.name.startswith('_')
             and not cf.name.startswith('__'))
     ex = Executor(p, inline=inline, max_depth=6)
     s = ex.run(f)
@@ -220,3 +220,166 @@ def no_positional_columns(ctx, rule='C10-R2'):
                                   'depends on column order', instance=f'{q}: frame used positionally')
     ctx.ok(rule, f'{n} terms in screening / clean-up: columns addressed by name only', '')
     ctx.floor(rule, 'terms examined', n, 40)
+
+
+# ---------------------------------------------------------------------------------------------- C10-R4
+NAME_KEYED_METHODS = {'merge', 'join', 'sort_values', 'groupby', 'merge_asof', 'merge_ordered', 'pivot', 'pivot_table',
+                      'nlargest', 'nsmallest', 'value_counts'}
+NAME_KEYED_CALLS = {'pandas.merge', 'pandas.merge_asof', 'pandas.merge_ordered', 'pandas.pivot_table', 'pandas.crosstab'}
+
+
+def _user_index(t, lphi=None) -> bool:
+    """Does the frame denoted by t still carry the index (labels and *names*) of the caller's frame?"""
+    t = T.peel(t)
+    tg = tag(t)
+    if tg == 'phi':
+        return any(_user_index(v) for _, v in t[1])
+    if tg == 'mcall':
+        if t[2] == 'reset_index':
+            kws = dict(t[4])
+            drop = kws.get('drop', t[3][1] if len(t[3]) > 1 else C(False))
+            return drop != C(True) and _user_index(t[1])
+        if t[2] in ('set_index', 'rename_axis', 'set_axis', 'reindex'):
+            return False            # the index is what the code makes it (judged by the label rules)
+        return _user_index(t[1])
+    if tg in ('mask', 'col', 'cols', 'rows', 'sub', 'upd', 'vals', 'cell', 'poscol'):
+        return _user_index(t[1])
+    if tg == 'call' and tag(t[1]) == 'g' and t[1][1] in ('copy.deepcopy', 'copy.copy') and t[2]:
+        return _user_index(t[2][0])
+    if tg in ('loopres',):
+        return _user_index(t[3]) or _user_index(t[4])
+    if tg == 'lphi':
+        return True
+    return tg == 'p'
+
+
+def name_keyed_operations(ctx, rule='C10-R4'):
+    """Operations that address columns *by name through the frame as a whole* (merge on=, sort_values by=, groupby)
+    are ambiguous - pandas raises ValueError - when an index level bears the name of a column.  They may only be
+    applied to frames whose index ampycloud made itself (reset_index(drop=True)), never to one that still carries the
+    index of the caller's frame."""
+    p = ctx.project
+    f = p.func(INIT, rule)
+    ctx.saw(f)
+
+    def inline(q, d):
+        cf = p.funcs.get(q)
+        return q == 'ampycloud.utils.utils.check_data_consistency' or (
+            cf is not None and cf.module.name in ('ampycloud.data', 'ampycloud.utils.utils') and cf.name.startswith('_')
+            and not cf.name.startswith('__'))
+    ex = Executor(p, inline=inline, max_depth=6)
+    s = ex.run(f)
+    n = 0
+    seen = set()
+    for e in s.events:
+        if e.kind != 'call' or e.guard == T.FALSE:
+            continue
+        c = e.call
+        frames = []
+        if tag(c) == 'mcall' and c[2] in NAME_KEYED_METHODS:
+            keyed = bool(c[3]) or any(k in ('on', 'by', 'left_on', 'right_on', 'columns', 'index', 'values') for k, _ in c[4])
+            if not keyed:
+                continue
+            frames = [c[1]] + ([c[3][0]] if c[2] in ('merge', 'join', 'merge_asof') and c[3] else [])
+            what = f'.{c[2]}()'
+        elif tag(c) == 'call' and tag(c[1]) == 'g' and c[1][1] in NAME_KEYED_CALLS:
+            frames = list(c[2][:2])
+            what = c[1][1]
+        else:
+            continue
+        key = (T.key(c), e.func.qname)
+        if key in seen:
+            continue
+        seen.add(key)
+        n += 1
+        bad = [fr for fr in frames if _user_index(fr)]
+        ctx.check(not bad, rule, e.func.qname, e.node, e.loc(),
+                  f'{what} addresses columns by name on a frame that still carries the caller\'s index '
+                  f'({T.show(bad[0], maxlen=100) if bad else ""}): when the caller\'s index is named like one of the columns '
+                  "(data.index.name = 'ceilo', data.set_index('dt', drop=False)) pandas refuses with \"'ceilo' is both an "
+                  'index level and a column label, which is ambiguous\" - a ValueError that depends on the index alone',
+                  instance=f'{e.func.qname.split(".")[-1]}: {what} on a frame with an index of ampycloud\'s own making')
+    ctx.floor(rule, 'name-keyed frame operations before / at the construction of the chunk data', n, 1)
+
+
+# ---------------------------------------------------------------------------------------------- C10-R5
+POSITION_MAKERS = {'numpy.flatnonzero', 'numpy.where', 'numpy.nonzero', 'numpy.argwhere', 'numpy.arange', 'builtins.range',
+                   'numpy.argsort', 'numpy.argmax', 'numpy.argmin', 'numpy.searchsorted', 'numpy.lexsort',
+                   'numpy.argpartition', 'numpy.nanargmax', 'numpy.nanargmin', 'numpy.digitize'}
+POSITION_METHODS = {'argsort', 'argmax', 'argmin', 'nonzero', 'searchsorted'}
+
+
+def _positional(t) -> bool:
+    """t is made of row *positions* (0 .. n-1 in the current row order)."""
+    t = T.peel(t)
+    tg = tag(t)
+    if tg == 'call' and tag(t[1]) == 'g' and t[1][1] in POSITION_MAKERS:
+        return True
+    if tg == 'mcall' and t[2] in POSITION_METHODS:
+        return True
+    if tg in ('mask', 'sub', 'vals'):
+        return _positional(t[1])
+    if tg == 'phi':
+        return any(_positional(v) for _, v in t[1])
+    if tg in ('list', 'tuple'):
+        return any(_positional(x) for x in t[1])
+    if tg == 'call' and tag(t[1]) == 'g' and t[1][1] in ('builtins.list', 'numpy.array', 'numpy.asarray', 'builtins.set') \
+            and t[2]:
+        return _positional(t[2][0])
+    return False
+
+
+def _labels_of_data(t) -> bool:
+    t = T.peel(t)
+    if tag(t) == 'index':
+        return T.root(t[1]) == DATA
+    if tag(t) in ('mask', 'sub', 'vals'):
+        return _labels_of_data(t[1])
+    if tag(t) == 'mcall' and t[2] in ('to_numpy', 'tolist', 'to_list', 'copy'):
+        return _labels_of_data(t[1])
+    return False
+
+
+def positions_are_not_labels(ctx, rule='C10-R5'):
+    """The chunk data has unique labels but not 0..n-1 in row order (rows are dropped after the index was reset, frames
+    are re-sorted): row positions must not be used where labels are expected, nor labels as positions."""
+    fx = effects(ctx)
+    p = ctx.project
+    n = 0
+    for cq in ('ampycloud.data.AbstractChunk', 'ampycloud.data.CeiloChunk'):
+        k = p.klass(cq, rule)
+        for nm, m in sorted(k.methods.items()):
+            ctx.saw(m)
+            bad = []
+            for e in fx.own_events(m.qname):
+                for nm2, v in fx.terms_of(e):
+                    if nm2 == 'guard' or v is None:
+                        continue
+                    for x in T.walk(v):
+                        tg = tag(x)
+                        if tg == 'mcall' and x[2] == 'isin' and tag(T.peel(x[1])) == 'index' and \
+                                T.root(T.peel(x[1])[1]) == DATA and x[3] and _positional(x[3][0]):
+                            bad.append((e, x, 'row positions are looked up among the index labels'))
+                        elif tg == 'rows' and x[2] == 'lab' and T.root(x[1]) == DATA and _positional(x[3]):
+                            bad.append((e, x, 'row positions are used as labels in .loc[...]'))
+                        elif tg == 'cell' and x[2][0] == 'lab' and T.root(x[1]) == DATA and _positional(x[2][1]):
+                            bad.append((e, x, 'a row position is used as a label in .at / .loc'))
+                        elif tg == 'mcall' and x[2] == 'drop' and T.root(x[1]) == DATA and x[3] and _positional(x[3][0]):
+                            bad.append((e, x, 'row positions are dropped as labels'))
+                        elif tg == 'rows' and x[2] == 'pos' and T.root(x[1]) == DATA and _labels_of_data(x[3]):
+                            bad.append((e, x, 'index labels are used as row positions in .iloc[...]'))
+            n += 1
+            seen = set()
+            for e, x, why in bad:
+                key = (T.key(x), why)
+                if key in seen:
+                    continue
+                seen.add(key)
+                ctx.violation(rule, m.qname, e.node, e.loc(),
+                              f'{why}: {T.show(x, maxlen=140)} - the labels of the chunk data are unique but not consecutive '
+                              '(hits above MSA + buffer are dropped after the index was reset), so position k and label k '
+                              'are different rows as soon as something was cropped',
+                              instance=f'{m.qname}: positions and labels not mixed')
+            if not bad:
+                ctx.ok(rule, f'{m.qname}: row positions and index labels are not mixed', m.loc())
+    ctx.floor(rule, 'chunk methods scanned', n, 20)
